@@ -5,6 +5,7 @@ mod c05;
 mod c06;
 mod c07;
 mod c08;
+mod c09;
 mod c10;
 mod c11;
 mod c13;
@@ -33,6 +34,7 @@ fn lookup(id: &str) -> Option<(RunFn, CheckFn)> {
         "C06" => (c06::run, c06::check_record),
         "C07" => (c07::run, c07::check_record),
         "C08" => (c08::run, c08::check_record),
+        "C09" => (c09::run, c09::check_record),
         "C10" => (c10::run, c10::check_record),
         "C11" => (c11::run, c11::check_record),
         "C13" => (c13::run, c13::check_record),
